@@ -236,5 +236,21 @@ pub fn render_all(args: &[String]) -> i32 {
         let twice = crate::runner::run_impl(&[rules.clone()], &words, &[], &[]);
         writeln!(out, "RUN {:?} {:?} => {:?}{}", rules, words, o, if o == twice { "" } else { " SECOND-CALL-DIFFERS" }).unwrap();
     }
+    // "in which order the words are supplied": the same rules over the word list and over the reversed word list (own stream, so
+    // that the draws above stay what they were)
+    let mut g = Gen::new(seed ^ 0xC01_0D);
+    for _ in 0..(if thorough { 20000 } else { 2500 }) {
+        let nr = 1 + g.rng.below(3); let rules = g.rules(crate::gen::Profile::Tame, nr);
+        let nw = 2 + g.rng.below(4); let words = g.words(nw);
+        let rev: Vec<String> = words.iter().rev().cloned().collect();
+        let o = crate::runner::run_impl(&[rules.clone()], &words, &[], &[]);
+        let r = crate::runner::run_impl(&[rules.clone()], &rev, &[], &[]);
+        let differs = match (&o, &r) {
+            (Out::Ok(a), Out::Ok(b)) => !a.iter().eq(b.iter().rev()),
+            (Out::Ok(_), Out::Err(_)) | (Out::Err(_), Out::Ok(_)) => true,
+            _ => false,
+        };
+        writeln!(out, "ORDER {:?} {:?} => {:?}{}", rules, words, o, if differs { format!(" reversed => {:?} WORD-ORDER-DIFFERS", r) } else { String::new() }).unwrap();
+    }
     0
 }
